@@ -99,7 +99,7 @@ class ObjTheory(BaseTheory):
 
     def global_name(self, ex, name):
         if name in ("len", "str", "isinstance", "super", "firstpos", "linecount", "int", "ord", "next", "sorted",
-                    "tuple", "list", "frozenset", "set", "type", "hasattr", "getattr", "callable", "iter"):
+                    "tuple", "list", "frozenset", "set", "type", "hasattr", "getattr", "callable", "iter", "any", "all"):
             return FuncV(name)
         return None
 
@@ -188,6 +188,22 @@ class ObjTheory(BaseTheory):
             if name == "endswith" and sval(args[0]) is not None:
                 return Z("bool", suffixof(s, sval(args[0])))
         return super().call_method(ex, recv, name, args, kwargs)
+
+    # any(<generator expression>) / all(...) where nothing is known about the iterated collection: either outcome
+    def comprehension(self, ex, node):
+        if isinstance(node, ast.GeneratorExp):
+            return ObjV("opaque-gen", info={"src": ast.unparse(node)})
+        return super().comprehension(ex, node)
+
+    def b_any(self, ex, args, kwargs):
+        if len(args) == 1 and isinstance(args[0], ObjV) and args[0].role in ("opaque-gen", "opaque-coll"):
+            return Z("bool", fresh("any_of_unknown_collection", B))
+        raise Untranslatable("any(...)")
+
+    def b_all(self, ex, args, kwargs):
+        if len(args) == 1 and isinstance(args[0], ObjV) and args[0].role in ("opaque-gen", "opaque-coll"):
+            return Z("bool", fresh("all_of_unknown_collection", B))
+        raise Untranslatable("all(...)")
 
     def b_len(self, ex, args, kwargs):
         (v,) = args
